@@ -23,6 +23,7 @@ import threading
 import time
 
 from common import detloop
+from common.runner import TranslateError, anchor_digest
 
 PROPERTY_ID = "C18"
 RUN_MODULE = "Run.C18"
@@ -75,6 +76,28 @@ ASSUMPTIONS = [
 ]
 
 SETTLE_ITERATIONS = 80
+# AST digests (common.runner.anchor_digest) of AsyncDatagramServer.__client_coroutine / __on_client_coroutine_task_done
+_DGRAM = SRC + "lowlevel/api_async/servers/datagram.py"
+_UDP_RESTART_SHAPES = {
+    # as found: restart of the client task from the finally clause, also when the client task was cancelled
+    ("f0cabb418c1ff3ce", "79d6ee2c9003a9f0"): False,
+    # meta/fixes/C18_udp_requeue_on_shutdown.diff: no restart when the client task was cancelled
+    ("9934ccc4ae934877", "db6e470efadf4121"): True,
+}
+
+
+def params():
+    """coq/Gen/ParamsC18.v: whether the datagram server guards the restart of a client task at tear-down.
+    Fail closed: only the two known shapes of the two functions are accepted."""
+    key = (anchor_digest(_DGRAM, "AsyncDatagramServer.__client_coroutine"),
+           anchor_digest(_DGRAM, "AsyncDatagramServer.__on_client_coroutine_task_done"))
+    if key not in _UDP_RESTART_SHAPES:
+        raise TranslateError("datagram.py AsyncDatagramServer.__client_coroutine / __on_client_coroutine_task_done have an "
+                             f"unknown shape {key}: the tear-down behaviour of queued datagrams must be re-modelled")
+    return ("(* datagram.py: is the restart of a client task skipped when that task was cancelled (server tear-down)? *)\n"
+            f"Definition udp_restart_guarded : bool := {'true' if _UDP_RESTART_SHAPES[key] else 'false'}.\n")
+
+
 L_SERVE, L_SHUTDOWN, L_CLOSE, L_CONNECT, L_DISCONNECT, L_OBSERVE, L_REL_FACTORY, L_REL_INIT, L_REL_CLIENT, L_UDPQ = range(10)
 CALLS = (L_SERVE, L_SHUTDOWN, L_CLOSE)
 
